@@ -17,11 +17,15 @@ func (c *verifCtx) Value(interface{}) interface{} { return nil }
 type verifStampNIC struct {
 	verifNIC
 	stamps []int64
+	busy   []int64 // time that passes during the i-th hand-over (a slow NIC)
 }
 
 func (n *verifStampNIC) onInboundChunk(c Chunk) {
 	n.chunks = append(n.chunks, c)
 	n.stamps = append(n.stamps, vNow())
+	if i := len(n.chunks) - 1; i < len(n.busy) {
+		vAdvance(n.busy[i])
+	}
 }
 
 // VerifDelayFilter: the real DelayFilter.Run loop as a goroutine, a producer goroutine handing in
